@@ -9,7 +9,7 @@ import collections
 import importlib
 import re
 
-PROP_GROUPS = {'C12': ['sortkey'], 'C04': ['driver'], 'C15': ['fields'], 'C01': ['flow'], 'C07': ['flow', 'ejson', 'ejson_hook'], 'C11': ['join'], 'C02': ['join'], 'C10': ['matcher'], 'C14': ['handlers', 'vloop'], 'C17': ['rows'], 'C13': ['load']}
+PROP_GROUPS = {'C16': ['concat'], 'C12': ['sortkey'], 'C04': ['driver'], 'C15': ['fields'], 'C01': ['flow'], 'C07': ['flow', 'ejson', 'ejson_hook'], 'C11': ['join'], 'C02': ['join'], 'C10': ['matcher'], 'C14': ['handlers', 'vloop'], 'C17': ['rows'], 'C13': ['load']}
 
 
 # ---------------------------------------------------------------- encoding
@@ -681,6 +681,41 @@ def run_ejson_hook(ctx, b, n):
     b.flush()
 
 
+def run_concat(ctx, b, n):
+    """`concatenate.concatenator`: the real generator over fake resource objects against the translated one"""
+    CC = importlib.import_module('dataflows.processors.concatenate')
+    rng = ctx.rng('pycorr-concat')
+
+    class Res:
+        def __init__(self, name, rows):
+            self._rows = rows
+
+            class R:
+                pass
+            self.res = R()
+            self.res.name = name
+
+        def __iter__(self):
+            return iter(self._rows)
+    for _ in range(n):
+        tf = rng.sample(['t1', 't2', 't3', 'a'], rng.randint(1, 4))
+        mp = {}
+        for t in tf:
+            mp[t] = t
+            for src in rng.sample(['a', 'b', 'c', 'd'], rng.randint(0, 2)):
+                mp.setdefault(src, t)
+        ress = []
+        for k in range(rng.randint(0, 3)):
+            rows = [{key: rng.choice([None, 1, 'x', 0, '']) for key in rng.sample(['a', 'b', 'c', 'd', 't1', 'zz'], rng.randint(0, 4))}
+                    for _ in range(rng.randint(0, 3))]
+            ress.append(('r%d' % k, rows))
+        import copy
+        real = real_call(lambda: list(CC.concatenator([Res(nm, copy.deepcopy(rows)) for nm, rows in ress], list(tf), dict(mp))))
+        args = [[{'res': {'name': nm}, '__iter__': rows} for nm, rows in ress], tf, mp]
+        b.add('concatenator', args, real, case=[tf, mp, [rows for _, rows in ress]])
+    b.flush()
+
+
 def exc_pv(tag):
     return to_pv({'__exception__': tag, 'errors': []})
 
@@ -989,7 +1024,7 @@ def run_flow(ctx, b, n):
     b.flush()
 
 
-RUNNERS = {'ejson_hook': run_ejson_hook, 'sortkey': run_sortkey, 'ejson': run_ejson, 'driver': run_driver, 'fields': run_fields, 'flow': run_flow, 'load': run_load, 'vloop': run_vloop, 'join': run_join, 'matcher': run_matcher, 'handlers': run_handlers, 'rows': run_rows}
+RUNNERS = {'concat': run_concat, 'ejson_hook': run_ejson_hook, 'sortkey': run_sortkey, 'ejson': run_ejson, 'driver': run_driver, 'fields': run_fields, 'flow': run_flow, 'load': run_load, 'vloop': run_vloop, 'join': run_join, 'matcher': run_matcher, 'handlers': run_handlers, 'rows': run_rows}
 
 
 def run(ctx, groups=None, n=None):
